@@ -27,6 +27,12 @@ ASSUMPTIONS = [
     "(TimeoutError at the frontend: the command never reaches the tag, or the tag executes it and the answer is lost) "
     "until the operation has ended with TagCommandError; the tag then answers again and the application repeats the "
     "same operation on the same tag / tag.ndef object (a tag that answers selectively within one attempt is C16's domain)",
+    "t1t: a (layout, message length) pair is inside the quantifier of C01/C02/C03 when no DECLARED reserved range lies "
+    "between the NDEF TLV's T byte and the last byte of the length field in the form that length needs (1 byte below 255, "
+    "3 bytes from 255 on); the fixed blocks Dh..Fh inside the header do not count (both readers jump them); a range "
+    "directly behind the stored length field is inside the quantifier",
+    "t1t: C16 session class: an operation during which no exchange fails beyond the retry budget has no error to "
+    "report, so a TagCommandError from it (after an earlier operation on the same object failed) is judged a violation",
     "t1t: C08 non-interference over declared ranges uses the reference reader's reading of the control TLVs in front "
     "of the NDEF TLV (lock area = ceil(bits/8) bytes, size 0 = 256); it is applied only where that reading is "
     "unambiguous (no control TLV declares bytes of its own T/L/V field)",
@@ -81,6 +87,74 @@ def rsv_inside(ref, n):
     return (body[-1] - body[0] + 1) != len(body)
 
 
+FIXED_BLOCKS = frozenset(range(104, 128))
+
+
+def behind_declared(ref, n):
+    """"len1" | "len3" when the first byte behind the stored length field of an n byte message (first value byte, or
+    the terminator of an empty message) does not follow it directly because a DECLARED reserved range starts right
+    behind the length field (layout class 'behind-length'); None otherwise"""
+    hdr = 2 if n < 255 else 4
+    if len(ref.free) <= hdr:
+        return None
+    gap = range(ref.free[hdr - 1] + 1, ref.free[hdr])
+    if len(gap) and any(a not in FIXED_BLOCKS for a in gap):
+        return "len1" if hdr == 2 else "len3"
+    return None
+
+
+def header_on_declared(ref, n):
+    """the TLV header (T + 1 or 3 length bytes) of an n byte message spans a DECLARED reserved range: outside the
+    quantifier of the tag properties (decided on the length form actually written)"""
+    hdr = 2 if n < 255 else 4
+    if len(ref.free) < hdr:
+        return True
+    return any(a in ref.reserved and a not in FIXED_BLOCKS for a in range(ref.free[0], ref.free[hdr - 1] + 1))
+
+
+def correlated(rng, base, cap, how=None):
+    """a message correlated with `base` (what the tag / the cache of the writing object holds): nfcpy writes by diff
+    against its cache, random contents never exercise the skip-unchanged-unit paths -> (message, class name)"""
+    base = bytes(base)
+    how = how or rng.choice(["scattered", "scattered", "extension", "identical", "truncated", "uniform", "uniform-same-length",
+                             "one-byte"])
+    if how == "scattered" and len(base) >= 3:
+        m = bytearray(base)
+        for a in rng.sample(range(len(m)), rng.choice([2, 3])):
+            m[a] ^= rng.randrange(1, 256)
+        return bytes(m), how
+    if how == "one-byte" and len(base) >= 1:
+        m = bytearray(base)
+        a = rng.choice([0, len(m) - 1, rng.randrange(len(m))])
+        m[a] ^= rng.randrange(1, 256)
+        return bytes(m), how
+    if how == "extension" and len(base) < cap:
+        n = rng.choice([1, 2, 8, rng.randrange(1, cap - len(base) + 1), cap - len(base)])
+        return base + rng.randbytes(min(n, cap - len(base))), how
+    if how == "truncated" and len(base) >= 2:
+        return base[:rng.choice([1, len(base) - 1, rng.randrange(1, len(base))])], how
+    if how == "uniform-same-length" and len(base) >= 1:
+        return bytes([rng.choice([0x00, 0xFF, 0xFE, 0x03])]) * len(base), how
+    if how == "uniform":
+        n = rng.choice([1, 7, 8, 9, min(cap, 254), min(cap, 255), cap, rng.randrange(cap + 1)])
+        return bytes([rng.choice([0x00, 0xFF, 0xFE, 0x03])]) * min(n, cap), "uniform"
+    return base, "identical"
+
+
+def units_skipped(model, w0, addrs, dynamic):
+    """write units (8-byte blocks of dynamic memory, bytes of static memory) that lie wholly inside the value of the
+    message just written and for which the tag received no WRITE command since write_log index w0 (nfcpy skips units
+    whose cached content did not change)"""
+    aset = set(addrs)
+    written = set()
+    for name, start, n, executed, b0, b1 in model.write_log[w0:]:
+        written.update(range(start, start + n))
+    if not dynamic:
+        return sum(1 for a in addrs if a not in written)
+    blocks = set(a // 8 for a in addrs)
+    return sum(1 for b in blocks if all((b * 8 + i) in aset for i in range(8)) and (b * 8) not in written)
+
+
 # ===================================================================================================
 # C01 - round trip and capacity
 # ===================================================================================================
@@ -99,8 +173,36 @@ RULE_C01 = ("layouts from vf.ref.t1_layout (static 120-byte memory: 0-3 NULL TLV
             "failed attempt left behind): static layouts, dynamic layouts and the Topaz-512 factory layout x lengths 0/1, "
             "around 254/255, capacity, random x j = first WRITE, every command index for short sequences, otherwise "
             "first data WRITE / random WRITE / last WRITE / random command, two failed attempts; the repeated assignment "
-            "runs fault-free, must succeed and a fresh nfcpy reader and the reference reader must read exactly m")
+            "runs fault-free, must succeed and a fresh nfcpy reader and the reference reader must read exactly m.  "
+            "Layout class 'behind-length' (dynamic memory): a declared range starts directly behind the stored length "
+            "field (NDEF TLV offset+2 for the 1-byte form - lengths >= 255 are then outside the quantifier and skipped, "
+            "decided per length on the form actually written - or offset+4 for the 3-byte form), so the first value byte "
+            "or the terminator of an empty message has to jump the range.  Class 'usable bytes 255..260' (data area size "
+            "and NULL TLV padding chosen so that exactly that many usable bytes follow the T byte: the capacity plateau "
+            "254,254,254,254,255,256).  Static layouts with CC TMS 03h..0Dh (data area ends in front of the loaded 120 "
+            "bytes).  Class 'object history' (mode history): 2-3 assignments on the SAME ndef object (m1, then m2 shorter / "
+            "longer / crossing 254-255 in both directions / correlated: 1-3 scattered bytes changed at the same length, "
+            "shared prefix + extension, truncation, identical, uniform 00/FF/FE/03; m1 itself correlated with the message "
+            "on the image in half of the cases), after EVERY assignment a fresh nfcpy reader and the reference reader must "
+            "read exactly that message and the capacity reported by the used object must not exceed the layout's; then "
+            "capacity+1 octets on the used object must be rejected without a command; write units inside the value that "
+            "the tag did not receive (skipped as unchanged) are counted")
 REQUIRED_C01 = ["t1t_roundtrips", "t1t_oversize_rejected", "t1t_capacity_checked",
+                "t1t_static_layouts_with_every_length", "t1t_c01_static_data_area_below_120",
+                "t1t_c01_layouts_range_behind_len1_field", "t1t_c01_layouts_range_behind_len3_field",
+                "t1t_c01_roundtrips_first_value_byte_behind_declared_range_len1",
+                "t1t_c01_roundtrips_first_value_byte_behind_declared_range_len3",
+                "t1t_c01_roundtrips_empty_message_terminator_behind_declared_range",
+                "t1t_c01_lengths_outside_quantifier_skipped", "t1t_c01_layouts_usable_257_258",
+                "t1t_c01_layouts_usable_255_256", "t1t_c01_layouts_usable_259_260",
+                "t1t_c01_history_cases", "t1t_c01_history_roundtrips", "t1t_c01_history_second_assignment_roundtrips",
+                "t1t_c01_history_shorter", "t1t_c01_history_longer", "t1t_c01_history_cross_up_254_255",
+                "t1t_c01_history_cross_down_255_254", "t1t_c01_history_correlated_scattered",
+                "t1t_c01_history_correlated_extension", "t1t_c01_history_correlated_identical",
+                "t1t_c01_history_correlated_uniform", "t1t_c01_history_correlated_with_image_message",
+                "t1t_c01_history_units_unchanged_and_skipped_dynamic", "t1t_c01_history_units_unchanged_and_skipped_static",
+                "t1t_c01_history_capacity_rechecked", "t1t_c01_history_oversize_rejected_on_used_object",
+                "t1t_c01_history_static", "t1t_c01_history_dynamic",
                 "t1t_c01_layouts_header_across_reserved_blocks",
                 "t1t_c01_retry_cases", "t1t_c01_retry_roundtrips", "t1t_c01_retry_static", "t1t_c01_retry_dynamic",
                 "t1t_c01_retry_topaz512_factory_layout", "t1t_c01_retry_first_write_never_reached_tag",
@@ -110,58 +212,95 @@ REQUIRED_C01 = ["t1t_roundtrips", "t1t_oversize_rejected", "t1t_capacity_checked
 
 
 def c01_lengths(rng, L, cap, extra=2):
+    """-> (lengths, number of lengths left out because their TLV header would span a declared range)"""
     want = [0, 1, 253, 254, 255, 256, cap - 1, cap, cap + 1]
     if L.adjacent_len:
         want.append(L.adjacent_len)
+    if L.behind_length:
+        want += [2, 3]
     for _ in range(extra):
         want.append(rng.randrange(cap + 2))
     out = []
+    skipped = 0
     for n in want:
         if 0 <= n <= cap + 1 and n not in out:
+            if n <= cap and L.length_field_on_reserved(n):
+                skipped += 1
+                continue
             out.append(n)
-    return out
+    return out, skipped
 
 
 def plan_c01(tier):
     if tier == "quick":
-        return [{"layouts": 900, "mix": "static", "all_lengths": 2, "timeout": 300},
+        return [{"layouts": 740, "mix": "static", "all_lengths": 16, "timeout": 300},
                 {"layouts": 450, "mix": "dynamic-small", "timeout": 300},
                 {"layouts": 220, "mix": "dynamic", "timeout": 300},
-                {"mode": "retry", "layouts": 90, "timeout": 300}]
-    return [{"layouts": 20000, "mix": "static", "all_lengths": 40, "timeout": 3000},
+                {"mode": "retry", "layouts": 90, "timeout": 300},
+                {"mode": "history", "layouts": 1000, "timeout": 300}]
+    return [{"layouts": 20000, "mix": "static", "all_lengths": 200, "timeout": 3000},
             {"layouts": 10000, "mix": "dynamic-small", "timeout": 3000},
             {"layouts": 4500, "mix": "dynamic", "timeout": 3000},
             {"layouts": 4500, "mix": "dynamic", "timeout": 3000},
             {"mode": "retry", "layouts": 1500, "timeout": 3000},
-            {"mode": "retry", "layouts": 1500, "timeout": 3000}]
+            {"mode": "retry", "layouts": 1500, "timeout": 3000},
+            {"mode": "history", "layouts": 9000, "timeout": 3000},
+            {"mode": "history", "layouts": 9000, "timeout": 3000}]
+
+
+USABLE_TARGETS = [255, 256, 257, 257, 258, 258, 259, 260]
 
 
 def gen_layout(rng, mix):
+    x = rng.random()
     if mix == "static":
-        return TL.gen_static(rng)
+        return TL.gen_static(rng, tms="small" if x < 0.25 else None)
     if mix == "dynamic-small":
-        if rng.random() < 0.2:
+        if x < 0.2:
             return TL.topaz512_factory(rng)
+        if x < 0.34:
+            return TL.gen_dynamic(rng, phys=rng.choice([256, 384, 512, 512]), behind_length=rng.choice([2, 2, 4]))
+        if x < 0.42:
+            return TL.gen_dynamic(rng, phys=rng.choice([384, 512, 512]), free_target=rng.choice(USABLE_TARGETS))
         return TL.gen_dynamic(rng, phys=rng.choice([256, 384, 512]))
+    if x < 0.12:
+        return TL.gen_dynamic(rng, behind_length=rng.choice([2, 4, 4]))
+    if x < 0.18:
+        return TL.gen_dynamic(rng, phys=rng.choice([512, 1024, 2048]), free_target=rng.choice(USABLE_TARGETS))
     return TL.gen_dynamic(rng)
+
+
+def count_layout_classes(R, L, prefix):
+    """what kind of layout was generated (observations for the REQUIRED lists)"""
+    if L.behind_length:
+        R.count("%s_layouts_range_behind_len%d_field" % (prefix, 1 if L.behind_length == 2 else 3))
+    if L.free_target is not None:
+        R.count("%s_layouts_usable_%s" % (prefix, {255: "255_256", 256: "255_256", 257: "257_258", 258: "257_258"}.get(
+            L.free_target, "259_260")))
+    if not L.dynamic and L.data_size < 120:
+        R.count("%s_static_data_area_below_120" % prefix)
+    if L.hdr_straddle:
+        R.count("%s_layouts_header_across_reserved_blocks" % prefix)
 
 
 def run_c01(desc, R, rng):
     if desc.get("mode") == "retry":
         return run_c01_retry(desc, R, rng)
+    if desc.get("mode") == "history":
+        return run_c01_history(desc, R, rng)
     for i in range(desc["layouts"]):
         L = gen_layout(rng, desc["mix"])
         td = tagdesc(L)
-        if L.hdr_declared_on_header:
-            R.count("t1t_c01_layouts_outside_quantifier_skipped")     # a declared range on the NDEF TLV's length field
+        if L.len1_outside:
+            R.count("t1t_c01_layouts_outside_quantifier_skipped")     # a declared range between the T byte and the length
             continue
-        if L.hdr_straddle:
-            R.count("t1t_c01_layouts_header_across_reserved_blocks")
+        count_layout_classes(R, L, "t1t_c01")
         if i < desc.get("all_lengths", 0) and not L.dynamic:
             lengths = list(range(L.capacity + 2))
             R.count("t1t_static_layouts_with_every_length")
         else:
-            lengths = c01_lengths(rng, L, L.capacity)
+            lengths, skipped = c01_lengths(rng, L, L.capacity)
+            R.count("t1t_c01_lengths_outside_quantifier_skipped", skipped)
         for n in lengths:
             case = dict(td, family=FAM, msg=rng.randbytes(n))
             c01_case(case, R)
@@ -174,6 +313,8 @@ def run_c01(desc, R, rng):
 def replay_c01(case, R):
     if case.get("faults") is not None:
         c01_retry_case(case, R)
+    elif case.get("msgs") is not None:
+        c01_history_case(case, R)
     else:
         c01_case(case, R)
 
@@ -242,6 +383,9 @@ def c01_case(case, R):
         return
     fmt = "len1" if n < 255 else "len3"
     rsv = "rsv-inside" if rsv_inside(ref0, n) else "plain"
+    behind = behind_declared(ref0, n)
+    if behind:
+        rsv += "/range-behind-length-field"
     R.case(key)
     R.count("t1t_writes_" + mem)
     if n == 0:
@@ -268,6 +412,159 @@ def c01_case(case, R):
         R.violation("t1t/roundtrip/ref-reader/%s/%s/%s" % (mem, fmt, rsv),
                     "wrote %d octets, the reference reader on the raw memory sees %r" % (n, ref1), case)
     R.count("t1t_roundtrips")
+    if behind:
+        R.count("t1t_c01_roundtrips_empty_message_terminator_behind_declared_range" if n == 0 else
+                "t1t_c01_roundtrips_first_value_byte_behind_declared_range_" + behind)
+
+
+def run_c01_history(desc, R, rng):
+    for i in range(desc["layouts"]):
+        kind = ("static", "dynamic-small", "dynamic-small", "static", "dynamic", "dynamic-small")[i % 6]
+        L = gen_layout(rng, kind)
+        if L.len1_outside:
+            R.count("t1t_c01_layouts_outside_quantifier_skipped")
+            continue
+        cap = L.max_len
+        old = L.old
+        if i % 2 == 0:
+            m1, c1 = correlated(rng, old, cap)
+            c1 = "image-" + c1
+        else:
+            m1, c1 = rng.randbytes(rng.choice([0, 1, min(cap, 253), min(cap, 254), min(cap, 255), min(cap, 256), cap,
+                                               rng.randrange(cap + 1), rng.randrange(cap + 1)])), "random"
+        msgs, rel = [m1], [c1]
+        for _ in range(rng.choice([1, 1, 2])):
+            prev = msgs[-1]
+            how = rng.choice(["shorter", "longer", "cross", "cross", "correlated", "correlated", "correlated"])
+            if how == "shorter" and len(prev) >= 1:
+                m = rng.randbytes(rng.choice([0, len(prev) - 1, rng.randrange(len(prev))]))
+            elif how == "longer" and len(prev) < cap:
+                m = rng.randbytes(rng.choice([len(prev) + 1, cap, rng.randrange(len(prev) + 1, cap + 1)]))
+            elif how == "cross" and cap >= 255:
+                if len(prev) >= 255:
+                    m = rng.randbytes(rng.choice([254, 253, rng.randrange(255), 0]))
+                else:
+                    m = rng.randbytes(rng.choice([255, 256, cap, rng.randrange(255, cap + 1)]))
+            else:
+                m, how = correlated(rng, prev, cap)
+            msgs.append(m)
+            rel.append(how)
+        c01_history_case(dict(tagdesc(L), family=FAM, msgs=msgs, rel=rel), R)
+        if i < 1:
+            R.sample({"t1t_c01_history": {"hr0": L.hr0, "ndef_tlv_at": L.offset, "capacity": L.capacity,
+                                          "lengths": [len(m) for m in msgs], "relations": rel}})
+
+
+def c01_history_case(case, R):
+    """case: image.., msgs [m1, m2, ..] assigned one after the other to the SAME ndef object; rel: how each message was
+    derived (labels for the counters only)"""
+    msgs = [bytes(m) for m in case["msgs"]]
+    rel = list(case.get("rel") or [])
+    mem = memkind(case)
+    image = bytes(case["image"])
+    ref0 = TL.ref_read(image, case["hr0"])
+    key = digest(image, case["hr0"], "history", *msgs)
+    model = mk_model(case)
+    try:
+        clf, dev, tag = activate(model, command_bound=8000)
+        nd = tag.ndef
+        ok = (nd is not None and ref0.status == "ndef" and ref0.writeable and bytes(nd.octets) == ref0.octets
+              and nd.capacity <= ref0.capacity and all(len(m) <= nd.capacity for m in msgs)
+              and not any(header_on_declared(ref0, len(m)) for m in msgs))
+    except Exception:
+        ok = False
+    if not ok:
+        R.case(key, nontrivial=False)
+        R.count("t1t_c01_history_setup_skipped")          # the plain read / capacity clauses are c01_case's
+        return
+    R.case(key)
+    R.count("t1t_c01_history_cases")
+    R.count("t1t_c01_history_" + mem)
+    prev = ref0.octets
+    sigbase = "t1t/c01/history/"
+    for idx, m in enumerate(msgs):
+        n = len(m)
+        tr = "%s-to-%s" % ("len1" if len(prev) < 255 else "len3", "len1" if n < 255 else "len3")
+        pos = "first" if idx == 0 else "later"
+        w0 = len(model.write_log)
+        try:
+            nd.octets = m
+        except Exception as e:
+            R.violation(sigbase + "write-raises/%s-assignment/%s/%s/%s" % (pos, mem, tr, exc_sig(e)),
+                        "assignment %d of %d on the same ndef object (%d octets after %d) raised %r"
+                        % (idx + 1, len(msgs), n, len(prev), e), case)
+            return
+        kind, val = fresh_read(model)
+        if kind != "octets" or val != m:
+            what = ("%d octets, first difference at %d" % (len(val), next((i for i, (a, b) in enumerate(zip(val, m)) if a != b),
+                                                                          min(len(val), len(m))))) if kind == "octets" else \
+                ("%s %r" % (kind, val))
+            R.violation(sigbase + "roundtrip/nfcpy-reader/%s-assignment/%s/%s" % (pos, mem, tr),
+                        "assignment %d of %d on the same ndef object (%d octets after %d): a fresh nfcpy reader sees %s"
+                        % (idx + 1, len(msgs), n, len(prev), what), case)
+        ref1 = TL.ref_read(model.mem, case["hr0"])
+        if ref1.status != "ndef" or ref1.octets != m:
+            R.violation(sigbase + "roundtrip/ref-reader/%s-assignment/%s/%s" % (pos, mem, tr),
+                        "assignment %d of %d on the same ndef object (%d octets after %d): the reference reader on the raw "
+                        "memory sees %r" % (idx + 1, len(msgs), n, len(prev), ref1), case)
+        R.count("t1t_c01_history_roundtrips")
+        if idx:
+            R.count("t1t_c01_history_second_assignment_roundtrips")
+        # observations: relation to the previous message and units skipped as unchanged
+        if n < len(prev):
+            R.count("t1t_c01_history_shorter")
+        elif n > len(prev):
+            R.count("t1t_c01_history_longer")
+        if len(prev) < 255 <= n:
+            R.count("t1t_c01_history_cross_up_254_255")
+        if n < 255 <= len(prev):
+            R.count("t1t_c01_history_cross_down_255_254")
+        r = rel[idx] if idx < len(rel) else ""
+        if r.startswith("image-"):
+            R.count("t1t_c01_history_correlated_with_image_message")
+            r = r[6:]
+        if r in ("scattered", "one-byte"):
+            R.count("t1t_c01_history_correlated_scattered")
+        elif r in ("extension", "truncated"):
+            R.count("t1t_c01_history_correlated_extension")
+        elif r == "identical":
+            R.count("t1t_c01_history_correlated_identical")
+        elif r.startswith("uniform"):
+            R.count("t1t_c01_history_correlated_uniform")
+        hdr = 2 if n < 255 else 4
+        sk = units_skipped(model, w0, ref0.free[hdr:hdr + n], mem == "dynamic")
+        if sk:
+            R.count("t1t_c01_history_units_unchanged_and_skipped_" + mem, sk)
+        if behind_declared(ref0, n):
+            R.count("t1t_c01_history_range_behind_length_field")
+        # the capacity the used object reports
+        R.count("t1t_c01_history_capacity_rechecked")
+        if nd.capacity > ref0.capacity:
+            R.violation(sigbase + "capacity-exceeds-layout/" + mem,
+                        "after assignment %d the used object reports capacity %d, the layout holds at most %d"
+                        % (idx + 1, nd.capacity, ref0.capacity), case)
+            return
+        if nd.capacity != ref0.capacity:
+            R.count("t1t_c01_history_capacity_below_reference")
+        prev = m
+    # capacity + 1 on the used object: rejected before any command
+    before = model.snapshot()
+    n0 = dev.n_commands
+    raised = None
+    try:
+        nd.octets = bytes(nd.capacity + 1)
+    except Exception as e:
+        raised = e
+    if raised is None:
+        R.violation(sigbase + "oversize/accepted/" + mem, "after %d assignments a message of capacity+1 = %d octets was accepted"
+                    % (len(msgs), nd.capacity + 1), case)
+    elif not isinstance(raised, ValueError):
+        R.violation(sigbase + "oversize/" + exc_sig(raised), "oversize data on the used object raised %r" % raised, case)
+    elif dev.n_commands != n0 or model.snapshot() != before:
+        R.violation(sigbase + "oversize/commands-sent/" + mem,
+                    "%d commands reached the tag before ValueError (used object)" % (dev.n_commands - n0), case)
+    else:
+        R.count("t1t_c01_history_oversize_rejected_on_used_object")
 
 
 def run_c01_retry(desc, R, rng):
@@ -278,10 +575,10 @@ def run_c01_retry(desc, R, rng):
             L = TL.topaz512_factory(rng)
         else:
             L = gen_layout(rng, kind)
-        if L.hdr_declared_on_header:
+        if L.len1_outside:
             R.count("t1t_c01_layouts_outside_quantifier_skipped")
             continue
-        cap = L.capacity
+        cap = L.max_len
         lens = [rng.choice([0, 1]), rng.choice([min(cap, 253), min(cap, 254), min(cap, 255), min(cap, 256)]),
                 rng.choice([cap, cap, rng.randrange(cap + 1)])]
         td = tagdesc(L)
@@ -416,8 +713,21 @@ RULE_C02 = ("writes (image, old message, new message) on static memory (byte-wis
             "dynamic memory at every alignment and the Topaz-512 factory layout (NDEF TLV at 22); same oracle: the fresh "
             "reader / reference reader see the old message, nothing, an empty or the new message.  The mechanism "
             "discriminator 'len3-partially-written' (open finding) is decided on the history of WRITE commands the tag "
-            "executed: the first length byte was 00h, became FFh, and the other two length bytes are not the new length")
+            "executed: the first length byte was 00h, became FFh, and the other two length bytes are not the new length; "
+            "its signature ends in /straddle (first and last byte of the 3-byte length field in different 8-byte blocks) "
+            "or /same-block.  Content classes of the cut write (plain class: fresh object, random contents; new length 0 "
+            "included): 'correlated' = new message derived from the message on the tag (1-3 scattered bytes changed at "
+            "the same length, prefix + extension, truncation, identical, uniform 00/FF/FE/03: nfcpy writes by diff against "
+            "its cache), 'history' = one completed assignment m1 on the same object, then the cut assignment (random or "
+            "correlated with m1; the old message of the oracle is m1).  Every cut run verifies that the tag really left the "
+            "field (k < n), a fresh reader that raises is a violation, and the stored length field must be 0, the old or "
+            "the new length (a partially written 3-byte field that the readers happen to refuse is reported under the "
+            "len3 signature, any other value is counted)")
 REQUIRED_C02 = ["t1t_cut_runs", "t1t_cut_outcome_old", "t1t_cut_outcome_new", "t1t_cut_straddling_layouts",
+                "t1t_cut_tag_left_field_verified", "t1t_cut_length_field_checked", "t1t_cut_writes_class_plain",
+                "t1t_cut_writes_class_correlated", "t1t_cut_writes_class_history", "t1t_cut_writes_new_len_zero",
+                "t1t_cut_writes_same_length", "t1t_cut_units_unchanged_and_skipped_dynamic",
+                "t1t_cut_units_unchanged_and_skipped_static", "t1t_cut_long_writes_length_in_one_block",
                 "t1t_cut_layouts_header_across_reserved_blocks",
                 "t1t_c02_retry_cases", "t1t_c02_retry_cut_runs", "t1t_c02_retry_first_write_never_reached_tag",
                 "t1t_c02_retry_fault_at_later_command", "t1t_c02_retry_fault_at_read", "t1t_c02_retry_two_failed_attempts",
@@ -461,8 +771,9 @@ def run_c02(desc, R, rng):
             L = TL.topaz512_factory(rng, old_len=rng.choice(["zero", "short", "short", "long", "long"]))
             new_len = max(1, c02_pick_len(rng, L.capacity, rng.choice(["short", "short", "edge", "long"])))
         elif desc["mix"] == "static":
-            L = TL.gen_static(rng, nulls=i % 8, prop=False, old_len=rng.choice(["zero", "short", "short", None]))
-            new_len = rng.choice([1, 2, rng.randrange(1, L.capacity + 1), L.capacity])
+            L = TL.gen_static(rng, nulls=i % 8, prop=False, old_len=rng.choice(["zero", "short", "short", None]),
+                              tms="small" if i % 16 == 9 else None)
+            new_len = rng.choice([1, 2, rng.randrange(1, L.capacity + 1), L.capacity, 0 if i % 4 == 1 else 1])
         else:
             align = (desc.get("first_align", 0) + i) % 8
             phys = rng.choice([256, 512, 512, 1024]) if desc["tier"] == "quick" else rng.choice([256, 512, 512, 1024, 2048])
@@ -482,12 +793,32 @@ def run_c02(desc, R, rng):
                 if L.hdr_straddle:
                     R.count("t1t_cut_layouts_header_across_reserved_blocks")
             new_len = c02_pick_len(rng, L.capacity, rng.choice(["short", "edge", "long", "long"]))
-            new_len = max(1, new_len)
+            new_len = max(1, new_len) if i % 11 != 5 else 0
+        if L.len1_outside or L.length_field_on_reserved(new_len) or L.length_field_on_reserved(len(L.old)):
+            R.count("t1t_cut_layouts_outside_quantifier_skipped")
+            continue
         new = rng.randbytes(new_len)
         case = dict(tagdesc(L), family=FAM, new=new)
         if retry:
             c02_retry_enumerate(case, R, rng, desc["tier"])
             continue
+        # contents / object history classes (the plain class: a fresh object, random new contents)
+        cap = L.max_len
+        cls = ("plain", "correlated", "plain", "history", "correlated", "plain", "history-correlated")[i % 7]
+        if cls == "correlated":
+            case["new"], how = correlated(rng, L.old, cap)
+            case["cls"] = "correlated-" + how
+        elif cls.startswith("history"):
+            # completed write(s) on the same object, then the cut write
+            m1 = rng.randbytes(c02_pick_len(rng, cap, rng.choice(["zero", "short", "edge", "long"])))
+            if rng.random() < 0.3:
+                m1 = correlated(rng, L.old, cap)[0]
+            case["pre"] = [m1]
+            if cls == "history-correlated":
+                case["new"], how = correlated(rng, m1, cap)
+                case["cls"] = "history-correlated-" + how
+            else:
+                case["cls"] = "history"
         c02_case(case, R)
         if i < 1:
             R.sample({"t1t_cut_write": {"hr0": L.hr0, "ndef_tlv_at": L.offset, "old_len": len(L.old), "new_len": new_len}})
@@ -500,14 +831,20 @@ def replay_c02(case, R):
         c02_case(case, R)
 
 
-def c02_write(model, image, new, k):
-    """restore, activate, read, arm the cut, write -> (old seen by the writer, state changes, writer exception)"""
+def c02_write(model, image, new, k, pre=(), info=None):
+    """restore, activate, read, completed writes `pre` on the same object, arm the cut, write
+    -> (old seen by the writer, state changes of the cut write, writer exception); info: dev, index of the write log at
+    the start of the last write"""
     import nfc.tag
     model.restore(image)
     clf, dev, tag = activate(model, command_bound=6000)
     nd = tag.ndef
     old = bytes(nd.octets)
+    for m in pre:
+        nd.octets = bytes(m)
     s0 = dev.state_changes
+    if info is not None:
+        info["dev"], info["w_last"] = dev, len(model.write_log)
     if k is not None:
         dev.arm_cut(k)
     exc = None
@@ -544,6 +881,14 @@ def c02_mech(model, w0, image, ref0, ref, old, new):
     return "other"
 
 
+def c02_len3_sig(mem, ref0):
+    """signature of the open finding, narrowed by where the 3-byte length field lies: /straddle = its first and last
+    byte are in different 8-byte blocks (two WRITE-E8 commands are unavoidable with the FFh-first order nfcpy's own
+    test pins), /same-block = one WRITE-E8 stores FF hi lo together (must never show a partially written field)"""
+    lf = ref0.free[1:4]
+    return "t1t/cut/mixed/len3-partially-written/%s/%s" % (mem, "straddle" if lf[0] // 8 != lf[2] // 8 else "same-block")
+
+
 def _c02_judge(R, model, w0, wit, old, new, ref0, sigbase, where, cprefix):
     """what a fresh nfcpy reader and the reference reader see on the memory the cut left behind"""
     mem = memkind(wit)
@@ -566,65 +911,113 @@ def _c02_judge(R, model, w0, wit, old, new, ref0, sigbase, where, cprefix):
     else:
         out = "unreadable_exception"
         R.seen("t1t_cut_reader_exceptions", exc_sig(val))
+        if isinstance(val, SimTagDevice.Bound):
+            R.inconc("t1t C02: the fresh reader exceeded the command bound (%s)" % where)
+        else:
+            # neither the old message, nor an empty / explicitly not-readable area, nor the new message
+            R.violation(sigbase.replace("/mixed/", "/") + "fresh-reader-raises/%s/%s" % (exc_sig(val), mem),
+                        "%s (NDEF TLV at %d, old %d, new %d octets): a fresh nfcpy reader raised %r"
+                        % (where, ref0.offset, len(old), len(new), val), wit)
     R.count(cprefix + out)
     if ref.status == "ndef" and ref.octets not in (old, new, b""):
         bad = bad or ("the reference reader finds a well-formed %d octet message on the raw memory that is neither "
                       "the old (%d) nor the new (%d) message" % (ref.length, len(old), len(new)))
         R.count("t1t_cut_ref_reader_mixed")
+    m = model.mem
+    # the stored length field itself: 0, the old or the new length whenever the T byte says NDEF TLV
+    lf = ref0.free[1:4]
+    stored = None
+    if m[ref0.offset] == TL.NDEF_T and len(lf) == 3:
+        stored = (m[lf[1]] << 8 | m[lf[2]]) if m[lf[0]] == 0xFF else m[lf[0]]
+        R.count(cprefix.replace("outcome_", "") + "length_field_checked")
     if bad:
-        m = model.mem
         mech = c02_mech(model, w0, bytes(wit["image"]), ref0, ref, old, new)
         if mech == "len3-partially-written":
-            sig = "t1t/cut/mixed/len3-partially-written/" + mem      # one mechanism, one signature (with or without retry)
+            sig = c02_len3_sig(mem, ref0)                            # one mechanism, one signature (with or without retry)
         else:
             sig = "%s%s/%s" % (sigbase, mech, mem)
         R.violation(sig, "%s (NDEF TLV at %d, old %d, new %d octets): %s; TLV header bytes on the tag: %s"
                     % (where, ref0.offset, len(old), len(new), bad, bytes(m[a] for a in ref0.free[:4]).hex()), wit)
+    elif stored is not None and stored not in (0, len(old), len(new)):
+        # no reader returned a mixture, but the length field holds a value that is neither 0 nor the old nor the new
+        # length (the readers refuse it only because the stale bytes happen to exceed the data area)
+        mech = c02_mech(model, w0, bytes(wit["image"]), ref0, ref, old, new)
+        if mech == "len3-partially-written":
+            R.count(cprefix.replace("outcome_", "") + "len3_partially_written_seen_as_unreadable")
+            R.violation(c02_len3_sig(mem, ref0),
+                        "%s (NDEF TLV at %d, old %d, new %d octets): the stored length field is FFh + stale bytes = %d, "
+                        "neither 0 nor the old nor the new length (readers: nfcpy %s, reference %s - the same partially "
+                        "written field reads as a mixture when the stale value fits the data area); TLV header bytes on "
+                        "the tag: %s" % (where, ref0.offset, len(old), len(new), stored, out, ref.status,
+                                         bytes(m[a] for a in ref0.free[:4]).hex()), wit)
+        else:
+            R.count(cprefix.replace("outcome_", "") + "length_field_other_value_unreadable")
 
 
 def c02_case(case, R):
     new = bytes(case["new"])
     image = bytes(case["image"])
+    pre = [bytes(m) for m in case.get("pre") or ()]
+    cls = case.get("cls", "plain")
     mem = memkind(case)
     ref0 = TL.ref_read(image, case["hr0"])
     if ref0.status != "ndef":
         R.inconc("t1t C02: generated layout not well-formed: %r" % ref0)
         return
-    old = ref0.octets
+    old = pre[-1] if pre else ref0.octets
     model = mk_model(case)
+    info = {}
     try:
-        seen_old, n, exc = c02_write(model, image, new, None)
+        seen_old, n, exc = c02_write(model, image, new, None, pre, info)
     except Exception as e:
         R.case(None, nontrivial=False)
         R.count("t1t_cut_reference_write_failed")
         R.sample({"t1t_cut_reference_write_failed": repr(e)})
         return
-    if exc is not None or seen_old != old or TL.ref_read(model.mem, case["hr0"]).octets != new:
+    if exc is not None or seen_old != ref0.octets or TL.ref_read(model.mem, case["hr0"]).octets != new:
         R.case(None, nontrivial=False)
         R.count("t1t_cut_reference_write_failed")
         return
-    wkey = digest(image, case["hr0"], new)
+    wkey = digest(image, case["hr0"], new, *pre)
     straddle = len(new) >= 255 and mem == "dynamic" and ref0.free[1] // 8 != ref0.free[3] // 8
     if straddle:
         R.count("t1t_cut_straddling_layouts")
     elif len(new) >= 255:
         R.count("t1t_cut_long_writes_length_in_one_block")
     R.count("t1t_cut_writes_" + mem)
+    R.count("t1t_cut_writes_class_" + ("history" if cls.startswith("history") else cls.split("-")[0]))
+    if cls != "plain":
+        R.seen("t1t_cut_content_classes", cls)
+    if len(new) == 0:
+        R.count("t1t_cut_writes_new_len_zero")
+    if len(new) == len(old):
+        R.count("t1t_cut_writes_same_length")
+    hdr = 2 if len(new) < 255 else 4
+    sk = units_skipped(model, info["w_last"], ref0.free[hdr:hdr + len(new)], mem == "dynamic")
+    if sk:
+        R.count("t1t_cut_units_unchanged_and_skipped_" + mem, sk)
     R.seen("t1t_cut_alignments_" + mem, ref0.offset % 8)
     R.max("t1t_cut_points_per_write", n)
     ks = range(n + 1) if case.get("k") is None else [case["k"]]
     for k in ks:
         w0 = len(model.write_log)
+        info = {}
         try:
-            c02_write(model, image, new, k)
+            c02_write(model, image, new, k, pre, info)
         except Exception as e:
             R.case((wkey, k))
             R.count("t1t_cut_writer_other_exception")
             R.sample({"t1t_cut_writer_exception": repr(e), "k": k})
         R.case((wkey, k))
+        if info.get("dev") is None or (k < n and not info["dev"].dead):
+            R.inconc("t1t C02: cut %d of %d was not reached" % (k, n))
+            continue
+        if info["dev"].dead:
+            R.count("t1t_cut_tag_left_field_verified")
         R.count("t1t_cut_runs")
         _c02_judge(R, model, w0, dict(case, k=k), old, new, ref0, "t1t/cut/mixed/",
-                   "cut after %d of %d state changing commands" % (k, n), "t1t_cut_outcome_")
+                   "%scut after %d of %d state changing commands" % ("%d completed write(s) on the same object, then " % len(pre)
+                                                                      if pre else "", k, n), "t1t_cut_outcome_")
 
 
 def _arm_fault(dev, j, flavour):
@@ -842,8 +1235,30 @@ RULE_C03 = ("operations (ndef.octets = m for lengths 0..capacity incl. adjacent-
             "command the tag received (executed or not) are judged over all attempts together against the image before "
             "the first attempt; static layouts, dynamic layouts (reserved ranges inside / directly after the message) "
             "and the Topaz-512 factory layout, lengths on both sides of 254/255 up to capacity; j = first WRITE, every "
-            "command index for short sequences, first data WRITE / random WRITE / last WRITE / a read on demand / random")
+            "command index for short sequences, first data WRITE / random WRITE / last WRITE / a read on demand / random.  "
+            "Layout classes as in C01: 'behind-length' (declared range directly behind the stored 1-byte / 3-byte length "
+            "field; a length whose header would span the range is outside the quantifier and skipped per length form), "
+            "'usable bytes 255..260', static layouts with CC TMS < 0Eh; every layout is also written with exactly the "
+            "capacity nfcpy REPORTS (resolved inside the case).  Class 'history' (2-3 assignments on the same object, "
+            "every one judged against the same allowed set).  Class 'format, then write on the same tag object' (Topaz / "
+            "Topaz-512, image with a message at any offset, blank or random): the format phase is judged as format, the "
+            "write phase against the NDEF area the reference reader finds on the memory format left behind.  Format "
+            "images of Topaz-512 carry block 0Fh all-zero, with random lock bits, all FFh or equal to the wipe value; "
+            "a format() that returns None (generic Type1Tag: not supported) is a no-op case: the memory oracle applies, "
+            "but it does not count as a format operation")
 REQUIRED_C03 = ["t1t_c03_write_ops", "t1t_c03_format_ops", "t1t_c03_write_commands_inspected", "t1t_c03_bytes_diffed",
+                "t1t_c03_static_data_area_below_120", "t1t_c03_layouts_range_behind_len1_field",
+                "t1t_c03_layouts_range_behind_len3_field", "t1t_c03_writes_first_value_byte_behind_declared_range_len1",
+                "t1t_c03_writes_first_value_byte_behind_declared_range_len3",
+                "t1t_c03_writes_empty_message_terminator_behind_declared_range",
+                "t1t_c03_layouts_usable_257_258", "t1t_c03_layouts_usable_255_256", "t1t_c03_layouts_usable_259_260",
+                "t1t_c03_writes_at_reported_capacity", "t1t_c03_writes_at_reported_capacity_usable_257_258",
+                "t1t_c03_history_ops", "t1t_c03_history_second_write_judged",
+                "t1t_c03_format_then_write_ops", "t1t_c03_format_then_write_second_phase_judged",
+                "t1t_c03_format_then_write_Topaz", "t1t_c03_format_then_write_Topaz512",
+                "t1t_c03_format_wipe_nonzero_Topaz512", "t1t_c03_format_block_f_nonzero",
+                "t1t_c03_format_block_f_differs_from_wipe", "t1t_c03_format_wipe_changed_bytes",
+                "t1t_c03_format_returned_true",
                 "t1t_c03_layouts_header_across_reserved_blocks",
                 "t1t_c03_retry_ops", "t1t_c03_retry_write_ops", "t1t_c03_retry_format_ops",
                 "t1t_c03_retry_attempt_failed_then_retry_returned", "t1t_c03_retry_two_failed_attempts",
@@ -854,28 +1269,43 @@ REQUIRED_C03 = ["t1t_c03_write_ops", "t1t_c03_format_ops", "t1t_c03_write_comman
 
 def plan_c03(tier):
     if tier == "quick":
-        return [{"layouts": 900, "mix": "static", "formats": 900, "timeout": 300},
-                {"layouts": 500, "mix": "dynamic-small", "formats": 250, "timeout": 300},
-                {"layouts": 300, "mix": "dynamic", "formats": 250, "timeout": 300},
+        return [{"layouts": 800, "mix": "static", "formats": 800, "phases": 120, "timeout": 300},
+                {"layouts": 460, "mix": "dynamic-small", "formats": 250, "phases": 120, "timeout": 300},
+                {"layouts": 270, "mix": "dynamic", "formats": 200, "phases": 60, "timeout": 300},
                 {"mode": "retry", "layouts": 100, "timeout": 300}]
-    return [{"layouts": 25000, "mix": "static", "formats": 25000, "timeout": 3000},
-            {"layouts": 12000, "mix": "dynamic-small", "formats": 6000, "timeout": 3000},
-            {"layouts": 6000, "mix": "dynamic", "formats": 6000, "timeout": 3000},
-            {"layouts": 6000, "mix": "dynamic", "formats": 6000, "timeout": 3000},
+    return [{"layouts": 25000, "mix": "static", "formats": 25000, "phases": 5000, "timeout": 3000},
+            {"layouts": 12000, "mix": "dynamic-small", "formats": 6000, "phases": 4000, "timeout": 3000},
+            {"layouts": 6000, "mix": "dynamic", "formats": 6000, "phases": 1500, "timeout": 3000},
+            {"layouts": 6000, "mix": "dynamic", "formats": 6000, "phases": 1500, "timeout": 3000},
             {"mode": "retry", "layouts": 1500, "timeout": 3000},
             {"mode": "retry", "layouts": 1500, "timeout": 3000}]
 
 
-def gen_format_image(rng, product):
-    """memory of a Topaz / Topaz-512 / generic tag before format(): blank, random, or carrying a message"""
+def gen_format_image(rng, product, wipe=None, anywhere=False):
+    """memory of a Topaz / Topaz-512 / generic tag before format(): blank, random, or carrying a message (anywhere:
+    Topaz-512 with a generated layout - NDEF TLV at any offset, other control TLVs - instead of the factory layout).
+    Block 0Fh of a Topaz-512 (LOCK2-3 + reserved): all zero, random lock bits, all FFh, or equal to the wipe value"""
     style = rng.choice(["blank", "random", "ndef", "ndef"])
     if product == "topaz":
-        L = TL.gen_static(rng, hr1=0x48)
+        L = TL.gen_static(rng, hr1=0x48, tms="small" if anywhere and rng.random() < 0.3 else None)
     elif product == "topaz512":
-        L = TL.topaz512_factory(rng)
+        if anywhere:
+            L = TL.gen_dynamic(rng, phys=512, data_size=512, hr0=0x12, hr1=0x4C, n_lock=0, n_mem=0, prop=False)
+        else:
+            L = TL.topaz512_factory(rng)
     else:
         L = TL.gen_dynamic(rng, phys=rng.choice([256, 512]), hr1=0x00, hr0=0x12)
     image = bytearray(L.image)
+    if product == "topaz512":
+        bf = rng.choice(["zero", "zero", "lockbits", "random", "ff", "wipe"])
+        if bf == "lockbits":
+            image[120:122] = bytes([rng.randrange(256), rng.randrange(256)])
+        elif bf == "random":
+            image[120:128] = rng.randbytes(8)
+        elif bf == "ff":
+            image[120:128] = b"\xff" * 8
+        elif bf == "wipe" and wipe is not None:
+            image[120:128] = bytes([wipe & 0xFF]) * 8
     if style != "ndef" and product != "generic":
         fill = bytes(len(image)) if style == "blank" else rng.randbytes(len(image))
         keep = set(range(0, 8)) | set(range(104, 128))
@@ -915,11 +1345,11 @@ def run_c03_retry(desc, R, rng):
                         wipe=rng.choice([None, 0, 0xA5, rng.randrange(256)]))
         else:
             L = TL.topaz512_factory(rng) if kind == "topaz512" else gen_layout(rng, kind)
-            if L.hdr_declared_on_header:
+            if L.len1_outside:
                 R.count("t1t_c03_layouts_outside_quantifier_skipped")
                 continue
-            cap = L.capacity
-            n = rng.choice([cap, cap, rng.randrange(cap + 1), min(cap, 254), min(cap, 255), L.adjacent_len or 1, 1])
+            cap = L.max_len
+            n = rng.choice([cap, cap, rng.randrange(cap + 1), min(cap, 254), min(cap, 255), min(L.adjacent_len or 1, cap), 1])
             base = dict(tagdesc(L), family=FAM, op="write", msg=rng.randbytes(n))
         seq = _c03_sequence(base)
         if not seq or not any(c[0] in WRITE_OPS for c in seq):
@@ -938,27 +1368,62 @@ def run_c03(desc, R, rng):
     for i in range(desc["layouts"]):
         L = gen_layout(rng, desc["mix"])
         td = tagdesc(L)
-        if L.hdr_declared_on_header:
-            R.count("t1t_c03_layouts_outside_quantifier_skipped")     # a declared range on the NDEF TLV's length field
+        if L.len1_outside:
+            R.count("t1t_c03_layouts_outside_quantifier_skipped")     # a declared range between the T byte and the length
             continue
-        if L.hdr_straddle:
-            R.count("t1t_c03_layouts_header_across_reserved_blocks")
+        count_layout_classes(R, L, "t1t_c03")
         cap = L.capacity
         lens = [cap, rng.randrange(cap + 1), rng.choice([0, 1, 2, min(cap, 254), min(cap, 255)])]
         if L.adjacent_len:
             lens.append(L.adjacent_len)
+        if L.behind_length:
+            lens += [0, rng.choice([1, 2, 3])]
         for n in sorted(set(lens)):
+            if L.length_field_on_reserved(n):
+                R.count("t1t_c03_lengths_outside_quantifier_skipped")
+                continue
             c03_case(dict(td, family=FAM, op="write", msg=rng.randbytes(n)), R)
+        # exactly the capacity nfcpy reports (whatever the reference says), resolved inside the case
+        c03_case(dict(td, family=FAM, op="write", rel=0, fill=rng.randbytes(16)), R)
     products = {"static": ["topaz"], "dynamic-small": ["topaz512"], "dynamic": ["topaz512", "generic"]}[desc["mix"]]
     for i in range(desc["formats"]):
-        td = gen_format_image(rng, rng.choice(products))
         version = rng.choice([None, None, 0x10, 0x12, 0x1F, 0x20])
         wipe = rng.choice([None, 0, 0xA5, 0xFF, rng.randrange(256)])
+        td = gen_format_image(rng, rng.choice(products), wipe)
         c03_case(dict(td, family=FAM, op="format", version=version, wipe=wipe), R)
+    for i in range(desc.get("phases", 0)):
+        if i % 2 == 0:
+            # object history: 2-3 assignments on the same ndef object
+            L = gen_layout(rng, desc["mix"])
+            if L.len1_outside:
+                continue
+            cap = L.max_len
+            msgs = [rng.randbytes(rng.choice([cap, rng.randrange(cap + 1), min(cap, 254), min(cap, 255)]))]
+            for _ in range(rng.choice([1, 2])):
+                how = rng.choice(["random", "random", "correlated", "correlated", "empty"])
+                if how == "random":
+                    msgs.append(rng.randbytes(rng.choice([cap, rng.randrange(cap + 1), rng.randrange(cap + 1)])))
+                elif how == "empty":
+                    msgs.append(b"")
+                else:
+                    msgs.append(correlated(rng, msgs[-1], cap)[0])
+            c03_phases_case(dict(tagdesc(L), family=FAM, phases=[["write", m] for m in msgs]), R)
+        else:
+            # format, then a write on the same tag object
+            product = "topaz" if desc["mix"] == "static" else "topaz512"
+            wipe = rng.choice([None, None, 0, 0x5A, rng.randrange(256)])
+            td = gen_format_image(rng, product, wipe, anywhere=rng.random() < 0.6)
+            cap = 90 if product == "topaz" else 462
+            n = rng.choice([0, 1, cap, cap, rng.randrange(cap + 1), min(cap, 254), min(cap, 255)])
+            c03_phases_case(dict(td, family=FAM, read_first=bool(i % 4 == 1),
+                                 phases=[["format", [rng.choice([None, None, 0x10, 0x12]), wipe]], ["write", rng.randbytes(n)]]), R)
 
 
 def replay_c03(case, R):
-    c03_case(case, R)
+    if case.get("phases") is not None:
+        c03_phases_case(case, R)
+    else:
+        c03_case(case, R)
 
 
 def c03_region(a, case, ref):
@@ -1000,7 +1465,7 @@ def c03_case(case, R):
             R.inconc("t1t C03: generated layout not well-formed: %r" % ref0)
             return
         allowed = set(ref0.free)
-        key = digest(case["image"], case["hr0"], "w", case["msg"])
+        key = digest(case["image"], case["hr0"], "w", case["msg"] if "msg" in case else ("rel", case["rel"], case["fill"]))
     else:
         key = digest(case["image"], case["hr0"], "f", case.get("version"), case.get("wipe"))
         if product == "Topaz":
@@ -1011,6 +1476,7 @@ def c03_case(case, R):
             allowed = set()
     raised = None
     result = None
+    msg = bytes(case["msg"]) if "msg" in case else None
     faults = [(int(j), str(f)) for j, f in (case.get("faults") or ())]
     failed = 0
     opsig = op + "/retry-after-failed-attempt" if faults else op
@@ -1023,6 +1489,19 @@ def c03_case(case, R):
                 R.case(key, nontrivial=False)
                 R.count("t1t_c03_setup_read_failed")
                 return
+            if msg is None:
+                # a message of exactly the capacity nfcpy reports (+ rel)
+                n = nd.capacity + case["rel"]
+                if n < 0 or header_on_declared(ref0, n):
+                    R.case(key, nontrivial=False)
+                    R.count("t1t_c03_lengths_outside_quantifier_skipped")
+                    return
+                msg = (bytes(case["fill"]) * (n // len(case["fill"]) + 1))[:n]
+                R.count("t1t_c03_writes_at_reported_capacity")
+                if len(ref0.free) in (257, 258):
+                    R.count("t1t_c03_writes_at_reported_capacity_usable_257_258")
+                if n > ref0.capacity:
+                    R.count("t1t_c03_writes_reported_capacity_above_reference")
         before = model.snapshot()
         w0 = len(model.write_log)
         # class "failed attempt(s), then retry on the same object": every attempt is part of the operation
@@ -1031,7 +1510,7 @@ def c03_case(case, R):
             res = exc = None
             try:
                 if op == "write":
-                    nd.octets = bytes(case["msg"])
+                    nd.octets = msg
                 else:
                     res = tag.format(case.get("version"), case.get("wipe"))
             except Exception as e:      # noqa: the memory oracle applies whatever the attempt raised
@@ -1045,7 +1524,7 @@ def c03_case(case, R):
             else:
                 R.count("t1t_c03_retry_fault_behind_end_of_attempt")
         if op == "write":
-            nd.octets = bytes(case["msg"])
+            nd.octets = msg
         else:
             result = tag.format(case.get("version"), case.get("wipe"))
     except Exception as e:
@@ -1063,18 +1542,37 @@ def c03_case(case, R):
         if failed > 1:
             R.count("t1t_c03_retry_two_failed_attempts")
         if op == "write" and ref0.status == "ndef":
-            R.count("t1t_c03_retry_" + ("len1" if len(case["msg"]) < 255 else "len3"))
-            if rsv_inside(ref0, len(case["msg"])):
+            R.count("t1t_c03_retry_" + ("len1" if len(msg) < 255 else "len3"))
+            if rsv_inside(ref0, len(msg)):
                 R.count("t1t_c03_retry_reserved_inside_message")
-    R.case(key)
-    R.count("t1t_c03_%s_ops" % op)
+    noop = op == "format" and result is None and raised is None
+    R.case(key, nontrivial=not noop)
+    if noop:
+        R.count("t1t_c03_format_not_supported_noop")      # generic Type1Tag: nothing to judge but "nothing changed"
+    else:
+        R.count("t1t_c03_%s_ops" % op)
     if raised is not None:
         R.count("t1t_c03_op_raised")          # not this property's business; the memory oracle still applies
         R.seen("t1t_c03_op_exceptions", exc_sig(raised))
     if op == "format":
         R.seen("t1t_c03_format_results", "%s:%r" % (product, result))
+        if result is True:
+            R.count("t1t_c03_format_returned_true")
+        wipe = case.get("wipe")
+        if product == "Topaz512" and result is True:
+            blockf = bytes(case["image"][120:128])
+            if wipe:
+                R.count("t1t_c03_format_wipe_nonzero_Topaz512")
+            if any(blockf):
+                R.count("t1t_c03_format_block_f_nonzero")
+            if wipe is not None and blockf != bytes([wipe & 0xFF]) * 8:
+                R.count("t1t_c03_format_block_f_differs_from_wipe")
     elif ref0.status == "ndef":
-        n = len(case["msg"])
+        n = len(msg)
+        bk = behind_declared(ref0, n)
+        if bk and raised is None:
+            R.count("t1t_c03_writes_empty_message_terminator_behind_declared_range" if n == 0 else
+                    "t1t_c03_writes_first_value_byte_behind_declared_range_" + bk)
         body = ref0.free[(2 if n < 255 else 4):][:n]
         last = body[-1] if body else ref0.offset + 1
         if (last + 1) in ref0.reserved and last + 1 < ref0.data_size:
@@ -1085,6 +1583,8 @@ def c03_case(case, R):
     R.count("t1t_c03_bytes_diffed", phys)
     changed = [a for a in range(phys) if before[a] != after[a]]
     R.count("t1t_c03_bytes_changed", len(changed))
+    if op == "format" and case.get("wipe") is not None and changed:
+        R.count("t1t_c03_format_wipe_changed_bytes")
     regions = {}
     for a in changed:
         if a not in allowed:
@@ -1104,6 +1604,104 @@ def c03_case(case, R):
         R.violation("t1t/c03/%s/write-unit-outside/%s/%s" % (opsig, reg, product),
                     "%s sent %d write command(s) whose unit lies wholly outside the NDEF area, first %s at byte %d"
                     % (op, len(lst), lst[0][0], lst[0][1]), case)
+
+
+def c03_phases_case(case, R):
+    """case: image.., phases [[kind, arg], ...] executed one after the other on the SAME tag object (kind "write": arg =
+    message, through tag.ndef of that moment; kind "format": arg = [version, wipe]); read_first: tag.ndef is evaluated
+    before the first phase.  Every phase is judged on its own: memory diff and WRITE commands of the phase against the
+    allowed set derived from the memory at the START of the phase (write: the NDEF area the reference reader finds
+    there; format: the bytes the product's format may rewrite)"""
+    mem = memkind(case)
+    model = mk_model(case)
+    phys = len(model.mem)
+    phases = [(str(k), a) for k, a in case["phases"]]
+    names = "+".join(k for k, _a in phases)
+    key = digest(case["image"], case["hr0"], "phases", repr([(k, bytes(a) if k == "write" else list(a)) for k, a in phases]),
+                 case.get("read_first"))
+    clf, dev, tag = activate(model, command_bound=12000)
+    if tag is None:
+        R.case(None, nontrivial=False)
+        R.inconc("t1t C03: tag not activated")
+        return
+    product = type(tag).__name__
+    nd = None
+    if case.get("read_first") or phases[0][0] == "write":
+        try:
+            nd = tag.ndef
+        except Exception:
+            nd = None
+    judged = 0
+    prev = None
+    for idx, (kind, arg) in enumerate(phases):
+        before = model.snapshot()
+        ref = TL.ref_read(before, case["hr0"])
+        w0 = len(model.write_log)
+        opsig = kind if prev is None else "%s-after-%s" % (kind, prev)
+        raised = result = None
+        if kind == "write":
+            msg = bytes(arg)
+            if ref.status != "ndef" or header_on_declared(ref, len(msg)):
+                R.count("t1t_c03_phase_skipped_no_wellformed_ndef_area")
+                break
+            allowed = set(ref.free)
+            try:
+                cur = tag.ndef if prev == "format" or nd is None else nd       # format: the application fetches tag.ndef anew
+                if cur is None:
+                    R.count("t1t_c03_phase_skipped_no_ndef_object")
+                    break
+                nd = cur
+                nd.octets = msg
+            except Exception as e:
+                raised = e
+        else:
+            if product == "Topaz":
+                allowed = set(range(8, 104))
+            elif product == "Topaz512":
+                allowed = set(range(8, 104)) | set(range(128, 512))
+            else:
+                allowed = set()
+            try:
+                result = tag.format(arg[0], arg[1])
+            except Exception as e:
+                raised = e
+            if result is not True and raised is None:
+                R.count("t1t_c03_phase_format_returned_%r" % (result,))
+        if raised is not None:
+            R.count("t1t_c03_op_raised")
+            R.seen("t1t_c03_op_exceptions", exc_sig(raised))
+        after = model.snapshot()
+        R.count("t1t_c03_bytes_diffed", phys)
+        regions = {}
+        for a in range(phys):
+            if before[a] != after[a] and a not in allowed:
+                regions.setdefault(c03_region(a, dict(case, image=before), ref), []).append(a)
+        for reg, addrs in sorted(regions.items()):
+            R.violation("t1t/c03/%s/changed-outside/%s/%s" % (opsig, reg, product),
+                        "phase %d (%s) of %s on one tag object changed %d byte(s) outside the NDEF area, first at %d: %02X -> %02X"
+                        % (idx + 1, kind, names, len(addrs), addrs[0], before[addrs[0]], after[addrs[0]]), case)
+        units = {}
+        for name, start, n, executed, b0, b1 in model.write_log[w0:]:
+            R.count("t1t_c03_write_commands_inspected")
+            if not any((start + i) in allowed for i in range(n)):
+                units.setdefault(c03_region(start, dict(case, image=before), ref), []).append((name, start))
+        for reg, lst in sorted(units.items()):
+            R.violation("t1t/c03/%s/write-unit-outside/%s/%s" % (opsig, reg, product),
+                        "phase %d (%s) of %s on one tag object sent %d write command(s) whose unit lies wholly outside the NDEF "
+                        "area, first %s at byte %d" % (idx + 1, kind, names, len(lst), lst[0][0], lst[0][1]), case)
+        judged += 1
+        if idx:
+            if prev == "format" and kind == "write" and raised is None:
+                R.count("t1t_c03_format_then_write_second_phase_judged")
+                R.count("t1t_c03_format_then_write_" + product)
+                if case.get("read_first"):
+                    R.count("t1t_c03_format_then_write_ndef_read_before_format")
+            elif prev == "write" and kind == "write" and raised is None:
+                R.count("t1t_c03_history_second_write_judged")
+        prev = kind
+    R.case(key, nontrivial=judged == len(phases))
+    if judged == len(phases):
+        R.count("t1t_c03_format_then_write_ops" if phases[0][0] == "format" else "t1t_c03_history_ops")
 
 
 # ===================================================================================================
@@ -1131,7 +1729,14 @@ RULE_C08 = ("images: random; valid CC + random TLV area; valid layouts with 1-3 
             "the non-interference oracle inverts, besides blocks Dh/Eh and the bytes behind the data area, every byte "
             "from the NDEF TLV on that the reference reader excludes from the data area (lock bytes = ceil(bits/8), a "
             "partially used last lock byte included); images in which a control TLV declares bytes of its own T/L/V field "
-            "reserved have no consistent reading and get the basic inversion only")
+            "reserved have no consistent reading and get the basic inversion only.  The non-interference oracle judges "
+            "the octets AND the presence of the NDEF object (a tag.ndef that turns into None when only bytes outside the "
+            "data area change depends on them), for empty messages too; the evaluation of the inverted image is judged "
+            "like any other image (escapes / non-termination there are violations with the inverted image as witness). "
+            "RID answers of 0..12 bytes instead of 6 (3 % of the images): no tag object or a clean evaluation; valid "
+            "layouts of the classes 'declared range directly behind the 1-byte / 3-byte length field' and 'static memory "
+            "with CC TMS < 0Eh' (unmutated and mutated); for the enumerated classes a second transformation sets every "
+            "byte outside the data area to one of 00h/FEh/03h/FFh")
 REQUIRED_C08 = ["t1t_c08_ctl_inside_cases", "t1t_c08_ctl_inside_lock", "t1t_c08_ctl_inside_mem",
                 "t1t_c08_ctl_inside_lock_bits_below_8", "t1t_c08_ctl_inside_lock_partial_last_byte",
                 "t1t_c08_ctl_inside_lock_whole_bytes", "t1t_c08_ctl_inside_size_0_means_256",
@@ -1142,7 +1747,11 @@ REQUIRED_C08 = ["t1t_c08_ctl_inside_cases", "t1t_c08_ctl_inside_lock", "t1t_c08_
     "t1t_c08_ctl_inside_lock_bits_%d" % _b for _b in range(1, 25)] + [
     "t1t_c08_ctl_inside_mem_bytes_%d" % _b for _b in range(1, 25)] + [
     "t1t_c08_ctl_inside_exp_%d" % _e for _e in range(0, 11)] + ["t1t_c08_images_header_across_reserved_blocks", "t1t_c08_cases", "t1t_c08_step_budget_armed", "t1t_c08_outcome_none", "t1t_c08_outcome_ndef", "t1t_c08_mute_positions",
-                "t1t_c08_adversarial_responses", "t1t_c08_noninterference_checked",
+                "t1t_c08_adversarial_responses", "t1t_c08_noninterference_checked", "t1t_c08_noninterference_same_result",
+                "t1t_c08_rid_length_variants", "t1t_c08_rid_length_variants_not_activated",
+                "t1t_c08_images_range_behind_len1_field", "t1t_c08_images_range_behind_len3_field",
+                "t1t_c08_images_static_data_area_below_120", "t1t_c08_noninterference_constant_fill_checked",
+                "t1t_c08_noninterference_empty_message_checked",
                 "t1t_c08_tlv_end_cases", "t1t_c08_tlv_end_form3_len_below_255", "t1t_c08_tlv_end_memory_behind",
                 "t1t_c08_tlv_end_rsv_before", "t1t_c08_tlv_end_rsv_inside", "t1t_c08_tlv_end_fit_returned_value",
                 "t1t_c08_tlv_end_overrun_returned_none", "t1t_c08_tlv_end_overrun_noninterference_checked_or_none"] + [
@@ -1307,9 +1916,19 @@ def c08_gen(rng):
         img[8:12] = bytes([0xE1, 0x10, rng.choice([phys // 8 - 1, 0x0E, 0x3F, 0xFF]), 0])
         c = {"image": bytes(img), "cls": "cc+random-tlvs"}
     else:
-        L = TL.gen_static(rng) if rng.random() < 0.35 else TL.gen_dynamic(rng)
+        x = rng.random()
+        if x < 0.35:
+            L = TL.gen_static(rng, tms="small" if x < 0.08 else None)
+        elif x < 0.45:
+            L = TL.gen_dynamic(rng, behind_length=rng.choice([2, 4]), old_len=rng.choice([None, "short", "long"]))
+        else:
+            L = TL.gen_dynamic(rng)
         if L.hdr_straddle:
             c = {"image": L.image, "cls": "valid-header-across-reserved-blocks"}
+        elif L.behind_length and rng.random() < 0.6:
+            c = {"image": L.image, "cls": "valid-range-behind-len%d-field" % (1 if L.behind_length == 2 else 3)}
+        elif not L.dynamic and L.data_size < 120 and rng.random() < 0.5:
+            c = {"image": L.image, "cls": "valid-static-data-area-below-120"}
         elif rng.random() < 0.1:
             c = {"image": L.image, "cls": "valid"}
         else:
@@ -1327,13 +1946,17 @@ def c08_gen(rng):
         c["dynamic"] = False                                      # HR0 claims dynamic memory, the silicon does not
     if phys > 120 and phys % 128 == 0 and rng.random() < 0.15:
         c["beyond"] = "mirror"
+    if rng.random() < 0.03:
+        c["rid_len"] = rng.choice([0, 1, 2, 3, 4, 5, 7, 8, 12])      # RID answer of another length than 6 bytes
+        c["cls"] += "+rid-length"
     c["family"] = FAM
     return c
 
 
 def c08_model(case):
     img = case["image"]
-    return T1TModel(img, case["hr0"], case["hr1"], oneway=(), dynamic=case.get("dynamic"), beyond=case.get("beyond", "silent"))
+    return T1TModel(img, case["hr0"], case["hr1"], oneway=(), dynamic=case.get("dynamic"), beyond=case.get("beyond", "silent"),
+                    rid_len=case.get("rid_len"))
 
 
 def c08_script(spec):
@@ -1459,8 +2082,13 @@ def c08_case(case, R, info=None):
     if sb.active:
         R.count("t1t_c08_step_budget_armed")
         R.max("t1t_c08_source_lines_per_evaluation", sb.count)
-    if (out == "ndef" and octets and not (case.get("script") or {}).get("kind", "").startswith("replace")
+    if case.get("rid_len") is not None:
+        R.count("t1t_c08_rid_length_variants")
+        R.count("t1t_c08_rid_length_variants_" + ("not_activated" if out == "none-tag" else "activated"))
+    if (out == "ndef" and octets is not None and not (case.get("script") or {}).get("kind", "").startswith("replace")
             and case.get("beyond") != "mirror"):
+        if not octets:
+            R.count("t1t_c08_noninterference_empty_message_checked")
         # (with address mirroring the physical bytes of blocks Dh/Eh are also visible at addresses inside the
         #  declared data area, so inverting them legitimately changes the octets: no verdict there)
         # non-interference: octets must not depend on bytes outside the data area: blocks Dh/Eh, everything behind the
@@ -1490,12 +2118,18 @@ def c08_case(case, R, info=None):
                     groups["block-f"] = blockf
         extra = sorted(set().union(*groups.values())) if groups else []
 
-        def differs(addrs):
+        fw = _Forward(R)
+
+        def differs(addrs, judge=False, fill=None):
+            """-> None (same result) | "octets" | "presence:<outcome>" for the image with `addrs` inverted (fill: set to
+            that constant instead)"""
             img = bytearray(image)
             for a in addrs:
-                img[a] ^= 0xFF
-            out2, oct2, _, _ = c08_eval(dict(case, image=bytes(img)), _Quiet())
-            return out2 == "ndef" and oct2 != octets
+                img[a] = (img[a] ^ 0xFF) if fill is None else fill
+            out2, oct2, _, _ = c08_eval(dict(case, image=bytes(img), inverted_from=case.get("cls")), fw if judge else _Quiet())
+            if out2 == "ndef":
+                return "octets" if oct2 != octets else None
+            return "presence:" + out2
         if basic or extra:
             R.count("t1t_c08_noninterference_checked")
             if extra:
@@ -1503,19 +2137,59 @@ def c08_case(case, R, info=None):
             if info is not None:
                 info["noninterference"] = True
                 info["reserved_inverted"] = len(extra)
-            if differs(basic + extra):
-                if not extra or differs(basic):
-                    R.violation("t1t/c08/octets-outside-data-area/" + c08_refclass(case, octets),
-                                "octets (%d) change when only bytes outside the declared data area (%d bytes) / in blocks "
-                                "Dh,Eh are inverted" % (len(octets), declared), case)
+            # the inverted image is a memory image of its own: whatever the evaluation raises there is judged (witness =
+            # the inverted image), never dropped
+            d = differs(basic + extra, judge=True)
+            fill = None
+            if d is None and (case.get("cls") == "ctl-inside" or (case.get("cls") == "tlv-end" and (len(octets) + sum(image[:7])) % 2)):
+                # enumerated classes (ctl-inside: every case, tlv-end: every second case): a second transformation - every
+                # byte outside the data area set to one constant that means something to a TLV parser (NULL,
+                # terminator, NDEF TLV tag, FFh)
+                fill = (0x00, 0xFE, 0x03, 0xFF)[(len(octets) // 2 + len(basic)) % 4]
+                R.count("t1t_c08_noninterference_constant_fill_checked")
+                d = differs(basic + extra, judge=True, fill=fill)
+            if fw.n:
+                R.count("t1t_c08_inverted_image_violations_forwarded", fw.n)
+            if d is not None and d.startswith("presence:") and d[9:] in ("exception", "bound"):
+                R.count("t1t_c08_noninterference_inverted_image_raised")        # reported through fw under its own signature
+            elif d is not None:
+                clause = "octets" if d == "octets" else "ndef-presence"
+                R.count("t1t_c08_noninterference_" + ("octets_differ" if d == "octets" else "presence_differs"))
+                db = differs(basic, fill=fill) if extra else d
+                if not extra or db is not None:
+                    rc = c08_refclass(case, octets)
+                    if clause != "octets" and rc == "capacity-underreported":
+                        rc = "ref-ndef-same-octets"
+                    R.violation("t1t/c08/%s-outside-data-area/%s" % ("octets" if clause == "octets" else "ndef-presence-depends-on",
+                                                                     rc),
+                                ("octets (%d) change" % len(octets) if clause == "octets" else
+                                 "tag.ndef (%d octets) becomes %s" % (len(octets), (db or d)[9:]))
+                                + " when only bytes outside the declared data area (%d bytes) / in blocks Dh,Eh are %s"
+                                % (declared, "inverted" if fill is None else "set to %02Xh" % fill), case)
                 else:
-                    which = [g for g in sorted(groups) if differs(sorted(groups[g]))] or ["combined"]
+                    which = [g for g in sorted(groups) if differs(sorted(groups[g]), fill=fill) is not None] or ["combined"]
                     rngs = ", ".join("%s %d..%d" % (k, st, st + nb - 1) for k, st, nb in ref.ranges)
-                    R.violation("t1t/c08/octets-from-reserved-bytes/" + "+".join(which),
-                                "octets (%d, NDEF TLV at %d) change when only bytes are inverted that the control TLVs "
-                                "exclude from the data area (%s; reference reader: lock bytes = ceil(bits/8))"
-                                % (len(octets), ref.offset, rngs or "block Fh"), case)
+                    R.violation("t1t/c08/%s-from-reserved-bytes/%s" % ("octets" if clause == "octets" else "ndef-presence",
+                                                                       "+".join(which)),
+                                ("octets (%d, NDEF TLV at %d) change" % (len(octets), ref.offset) if clause == "octets" else
+                                 "tag.ndef (%d octets, NDEF TLV at %d) becomes %s" % (len(octets), ref.offset, d[9:]))
+                                + " when only bytes are %s that the control TLVs exclude from the data area (%s; "
+                                "reference reader: lock bytes = ceil(bits/8))"
+                                % ("inverted" if fill is None else "set to %02Xh" % fill, rngs or "block Fh"), case)
+            else:
+                R.count("t1t_c08_noninterference_same_result")
     return out, ncmd, log
+
+
+class _Forward(object):
+    """recorder stand-in for the evaluation of an inverted image: violations are real (the inverted image is an
+    arbitrary memory image like any other) and go to the shard's recorder, counted"""
+    def __init__(self, R):
+        self.R, self.n = R, 0
+
+    def violation(self, sig, what, case):
+        self.n += 1
+        self.R.violation(sig, "[image with the bytes outside the data area inverted] " + what, case)
 
 
 class _Quiet(object):
@@ -1773,6 +2447,10 @@ def run_c08(desc, R, rng):
         R.seen("t1t_c08_image_classes", case["cls"])
         if case["cls"].startswith("valid-header-across"):
             R.count("t1t_c08_images_header_across_reserved_blocks")
+        elif case["cls"].startswith("valid-range-behind-len"):
+            R.count("t1t_c08_images_" + case["cls"][6:].split("+")[0].replace("-", "_"))
+        elif case["cls"].startswith("valid-static-data-area-below-120"):
+            R.count("t1t_c08_images_static_data_area_below_120")
         for m in case.get("mutations", ()):
             R.seen("t1t_c08_mutations", m)
         out, ncmd, log = c08_case(case, R)
@@ -1827,9 +2505,32 @@ RULE_C16 = ("operations read_id, read_all, read_byte, read_block, read_segment, 
             "answered commands were compared with the fault-free run; at every cell (any burst) an operation that "
             "returns normally returns the fault-free result or its documented failure value (None / False / "
             "has_changed True / a dump that stops at the failing block) and, with the fault-free result, leaves the "
-            "fault-free tag memory")
+            "fault-free tag memory.  Added cells: persistent burst (99 errors from position p on, every p x kind, flavours "
+            "alternating: the operation must end as TagCommandError / documented failure value within 3 x the fault-free "
+            "number of commands); double bursts (two bursts of 1-2 errors - each within the retry budget, together above "
+            "it - at two different commands p1 < p2 of one operation, same or different kind: same result, memory and "
+            "answered sequence as fault-free).  On failure paths (burst >= 3) no command that was answered is answered "
+            "more often than the fault-free run sends it (order-agnostic 'answered command not sent again'); after a "
+            "persistent failure has_changed must be True (the docstring: the message 'is different' / tag.ndef may be "
+            "None after the update) and is_present False.  Class 'session': three operations on ONE tag object (and the "
+            "ndef object read at the start), the first with a fault (burst 1, 2, 3 or persistent at a random position), "
+            "optionally a burst within the budget in a later one; when every burst was within the budget the whole "
+            "session must equal the fault-free session (results, final memory, answered commands); after a failed "
+            "operation the later operations run on a healthy link: nothing but a result may come out (no raw exception, "
+            "no TagCommandError, no unbounded retries), no answered command is sent twice in a row, and the primitives "
+            "whose result is a function of the tag memory (read_id/all/byte/block/segment, write_byte, is_present) "
+            "return what a fresh tag object returns on the same memory")
 REQUIRED_C16 = ["t1t_c16_fault_runs", "t1t_c16_recovered", "t1t_c16_failed_as_tagcommanderror", "t1t_c16_ops",
-                "t1t_c16_answered_sequences_compared", "t1t_c16_normal_returns_judged"]
+                "t1t_c16_answered_sequences_compared", "t1t_c16_normal_returns_judged",
+                "t1t_c16_persistent_burst_runs", "t1t_c16_persistent_burst_failed_as_tagcommanderror",
+                "t1t_c16_persistent_burst_documented_result", "t1t_c16_double_burst_runs", "t1t_c16_double_burst_recovered",
+                "t1t_c16_double_burst_both_bursts_hit", "t1t_c16_double_burst_mixed_kinds",
+                "t1t_c16_failure_paths_checked_for_resend", "t1t_c16_has_changed_after_persistent_failure_true",
+                "t1t_c16_is_present_after_persistent_failure_false",
+                "t1t_c16_session_cases", "t1t_c16_session_first_op_recovered", "t1t_c16_session_first_op_failed",
+                "t1t_c16_session_whole_session_compared", "t1t_c16_session_healthy_ops_after_failure_judged",
+                "t1t_c16_session_memory_functional_results_compared", "t1t_c16_session_later_burst_within_budget",
+                "t1t_c16_session_persistent_first_op"]
 
 KINDS = ["TimeoutError", "TransmissionError", "ProtocolError"]
 
@@ -1877,9 +2578,9 @@ def run_c16(desc, R, rng):
         base = dict(td, family=FAM, product=product, op=name, args=args,
                     msg=bytes((i * 7 + 1) & 0xFF for i in range(args.get("len", 0))))
         ref = c16_run(base, None)
-        R.count("t1t_c16_ops")
         c16_check_reference(base, ref, R)
         n = len(ref["log"])
+        R.count("t1t_c16_ops" if n else "t1t_c16_ops_without_commands")      # (format on a generic tag: not supported)
         R.max("t1t_c16_commands_per_operation", n)
         R.seen("t1t_c16_operations", "%s:%s:%d commands" % (product, name, n))
         for p in range(n):
@@ -1888,10 +2589,26 @@ def run_c16(desc, R, rng):
                     for flavour in ("cmd_lost", "rsp_lost"):
                         case = dict(base, fault={"p": p, "kind": kind, "b": b, "flavour": flavour})
                         c16_case(case, R, ref)
+                # persistent: every exchange from p on fails
+                flavour = ("cmd_lost", "rsp_lost")[(p + KINDS.index(kind)) % 2]
+                c16_case(dict(base, fault={"p": p, "kind": kind, "b": 99, "flavour": flavour}), R, ref)
+        # double bursts: each within the retry budget, at two different commands
+        if n >= 2:
+            pairs = [(0, n - 1), (0, 1), (n - 2, n - 1)] + [tuple(sorted(rng.sample(range(n), 2))) for _ in range(3)]
+            for p1, p2 in sorted(set(pairs)):
+                kind = rng.choice(KINDS)
+                f = {"p": p1, "kind": kind, "b": rng.choice([1, 2, 2]), "flavour": rng.choice(["cmd_lost", "rsp_lost"]),
+                     "p2": p2, "b2": rng.choice([1, 2, 2]), "kind2": kind if rng.random() < 0.5 else rng.choice(KINDS)}
+                if f["b"] + f["b2"] < 3:
+                    f["b2"] = 2
+                c16_case(dict(base, fault=f), R, ref)
+    run_c16_sessions(desc, R, rng, td)
     R.sample({"t1t_c16_product": product})
 
 
 def replay_c16(case, R):
+    if case.get("session") is not None:
+        return c16_session_case(case, R)
     ref = c16_run(dict(case, fault=None), None)
     c16_check_reference(case, ref, R)
     if case.get("fault"):
@@ -1906,10 +2623,72 @@ def _norm(v):
     return v
 
 
+def _c16_do(tag, nd, op, args, msg):
+    if op == "ndef_read":
+        x = tag.ndef
+        return None if x is None else ("ndef", bytes(x.octets), x.capacity)
+    if op == "ndef_write":
+        nd.octets = bytes(msg)
+        return "written"
+    if op == "has_changed":
+        return nd.has_changed
+    if op == "is_present":
+        return tag.is_present
+    if op == "format":
+        return tag.format(None, args["wipe"])
+    if op == "protect":
+        return tag.protect()
+    if op == "dump":
+        return tag.dump()
+    if op == "read_id":
+        return tag.read_id()
+    if op == "read_all":
+        return tag.read_all()
+    if op == "read_byte":
+        return tag.read_byte(args["addr"])
+    if op == "read_block":
+        return tag.read_block(args["block"])
+    if op == "read_segment":
+        return tag.read_segment(args["segment"])
+    if op == "write_byte":
+        return tag.write_byte(args["addr"], args["data"], args["erase"])
+    if op == "write_block":
+        return tag.write_block(args["block"], bytearray(args["data"]), args["erase"])
+    raise ValueError(op)
+
+
+def _c16_outcome(fn):
+    import nfc.tag
+    try:
+        return ("ok", _norm(fn()))
+    except nfc.tag.TagCommandError as e:
+        return ("tce", e.errno, type(e).__name__)
+    except SimTagDevice.Bound:
+        return ("bound", None)
+    except Exception as e:
+        return ("exc", exc_sig(e), repr(e))
+
+
+def _c16_script(n0, fault):
+    """fault: p, kind, b, flavour [, p2, b2, kind2]: burst of b errors from the p-th exchange of the operation on; the
+    optional second burst starts at the command with fault-free index p2 > p (the b retries of the first burst - which
+    is within the budget - shift it by b exchanges)"""
+    import nfc.clf
+    spans = [(n0 + fault["p"], n0 + fault["p"] + fault["b"], getattr(nfc.clf, fault["kind"]))]
+    if fault.get("p2") is not None:
+        lo = n0 + fault["p2"] + fault["b"]
+        spans.append((lo, lo + fault["b2"], getattr(nfc.clf, fault.get("kind2") or fault["kind"])))
+
+    def script(n, data):
+        for lo, hi, exc in spans:
+            if lo <= n < hi:
+                return (fault["flavour"], exc)
+        return None
+    return script
+
+
 def c16_run(case, fault):
     """run the operation on a fresh model -> dict(outcome, log (op part of the device log), mem)"""
-    import nfc.clf
-    import nfc.tag
     model = mk_model(case)
     clf, dev, tag = activate(model, command_bound=3000)
     op, args = case["op"], case["args"]
@@ -1918,49 +2697,8 @@ def c16_run(case, fault):
         nd = tag.ndef                 # fault-free preparation
     n0 = dev.n_commands
     if fault:
-        exc = getattr(nfc.clf, fault["kind"])
-        lo, hi = n0 + fault["p"], n0 + fault["p"] + fault["b"]
-        dev.script = lambda n, data: (fault["flavour"], exc) if lo <= n < hi else None
-    try:
-        if op == "ndef_read":
-            x = tag.ndef
-            res = None if x is None else ("ndef", bytes(x.octets), x.capacity)
-        elif op == "ndef_write":
-            nd.octets = bytes(case["msg"])
-            res = "written"
-        elif op == "has_changed":
-            res = nd.has_changed
-        elif op == "is_present":
-            res = tag.is_present
-        elif op == "format":
-            res = tag.format(None, args["wipe"])
-        elif op == "protect":
-            res = tag.protect()
-        elif op == "dump":
-            res = tag.dump()
-        elif op == "read_id":
-            res = tag.read_id()
-        elif op == "read_all":
-            res = tag.read_all()
-        elif op == "read_byte":
-            res = tag.read_byte(args["addr"])
-        elif op == "read_block":
-            res = tag.read_block(args["block"])
-        elif op == "read_segment":
-            res = tag.read_segment(args["segment"])
-        elif op == "write_byte":
-            res = tag.write_byte(args["addr"], args["data"], args["erase"])
-        elif op == "write_block":
-            res = tag.write_block(args["block"], bytearray(args["data"]), args["erase"])
-        else:
-            raise ValueError(op)
-        outcome = ("ok", _norm(res))
-    except nfc.tag.TagCommandError as e:
-        outcome = ("tce", e.errno, type(e).__name__)
-    except SimTagDevice.Bound:
-        outcome = ("bound", None)
-    except Exception as e:
-        outcome = ("exc", exc_sig(e), repr(e))
+        dev.script = _c16_script(n0, fault)
+    outcome = _c16_outcome(lambda: _c16_do(tag, nd, op, args, case.get("msg")))
     return {"outcome": outcome, "log": dev.log[n0:], "mem": model.snapshot()}
 
 
@@ -2042,17 +2780,30 @@ def c16_silent(case, R, ref, got):
 
 def c16_case_judge(case, R, ref):
     import nfc.tag
+    from collections import Counter
     f = case["fault"]
     op = case["op"]
     errno_of = {"TimeoutError": nfc.tag.TIMEOUT_ERROR, "TransmissionError": nfc.tag.RECEIVE_ERROR,
                 "ProtocolError": nfc.tag.PROTOCOL_ERROR}
     got = c16_run(case, f)
-    R.case((case["product"], op, repr(sorted(case["args"].items())), f["p"], f["kind"], f["b"], f["flavour"]))
+    double = f.get("p2") is not None
+    R.case((case["product"], op, repr(sorted(case["args"].items())), f["p"], f["kind"], f["b"], f["flavour"],
+            f.get("p2"), f.get("b2"), f.get("kind2")))
     R.count("t1t_c16_fault_runs")
-    R.seen("t1t_c16_cells", "%s/b%d/%s" % (f["kind"], f["b"], f["flavour"]))
+    if double:
+        R.count("t1t_c16_double_burst_runs")
+        if (f.get("kind2") or f["kind"]) != f["kind"]:
+            R.count("t1t_c16_double_burst_mixed_kinds")
+        R.seen("t1t_c16_cells", "double/b%d+b%d/%s" % (f["b"], f["b2"], f["flavour"]))
+    else:
+        R.seen("t1t_c16_cells", "%s/b%d/%s" % (f["kind"], f["b"], f["flavour"]))
+    if f["b"] >= 99:
+        R.count("t1t_c16_persistent_burst_runs")
     out = got["outcome"]
     where = "%s on %s, %s x%d (%s) at command %d of %d" % (op, case["product"], f["kind"], f["b"], f["flavour"], f["p"],
                                                           len(ref["log"]))
+    if double:
+        where += " and %s x%d at command %d" % (f.get("kind2") or f["kind"], f["b2"], f["p2"])
     if out[0] == "exc":
         R.violation("t1t/c16/escape/%s/%s" % (op, out[1]), "%s: %s escaped" % (where, out[2]), case)
         return got
@@ -2062,47 +2813,232 @@ def c16_case_judge(case, R, ref):
     ref_ans = _answered(ref["log"])
     ans = _answered(got["log"])
     if f["b"] <= 2:
-        # within the retry budget of three attempts
+        # within the retry budget of three attempts (double bursts: each of the two)
+        tag_ = "double-burst/" if double else ""
+        if double:
+            nf = sum(1 for (n, cmd, rsp) in got["log"] if isinstance(rsp, str) and "lost" in rsp)
+            if nf == f["b"] + f["b2"]:
+                R.count("t1t_c16_double_burst_both_bursts_hit")
         if out[0] == "tce":
-            R.violation("t1t/c16/fails-within-budget/%s/b%d" % (op, f["b"]),
-                        "%s: ended with %s errno %r although the burst is within the retry budget" % (where, out[2], out[1]), case)
+            R.violation("t1t/c16/fails-within-budget/%s%s/b%d" % (tag_, op, f["b"]),
+                        "%s: ended with %s errno %r although %s within the retry budget"
+                        % (where, out[2], out[1], "each burst is" if double else "the burst is"), case)
             return got
-        R.count("t1t_c16_recovered")
+        R.count("t1t_c16_double_burst_recovered" if double else "t1t_c16_recovered")
         if out != ref["outcome"]:
-            R.violation("t1t/c16/result-differs/" + op, "%s: result %r, fault-free %r" % (where, out, ref["outcome"]), case)
+            R.violation("t1t/c16/result-differs/" + tag_ + op, "%s: result %r, fault-free %r" % (where, out, ref["outcome"]), case)
         if got["mem"] != ref["mem"]:
-            R.violation("t1t/c16/memory-differs/" + op, "%s: final tag memory differs from the fault-free run" % where, case)
+            R.violation("t1t/c16/memory-differs/" + tag_ + op, "%s: final tag memory differs from the fault-free run" % where, case)
         R.count("t1t_c16_answered_sequences_compared")
         if ans != ref_ans:
             dup = any(ans[i] == ans[i - 1] for i in range(1, len(ans))) and len(ans) > len(ref_ans)
-            R.violation("t1t/c16/%s/%s" % ("answered-command-sent-again" if dup else "command-sequence-differs", op),
+            R.violation("t1t/c16/%s/%s%s" % ("answered-command-sent-again" if dup else "command-sequence-differs", tag_, op),
                         "%s: answered commands %d, fault-free %d" % (where, len(ans), len(ref_ans)), case)
         return got
-    # burst of 3 or 4: the command at position p cannot succeed
-    attempts = [cmd for (n, cmd, rsp) in got["log"][f["p"]:f["p"] + 4]]
+    # burst of 3, 4 or persistent: the command at position p cannot succeed
+    persistent = f["b"] >= 99
+    tail = [cmd for (n, cmd, rsp) in got["log"][f["p"]:]]
     same = 1
-    while same < len(attempts) and attempts[same] == attempts[0]:
+    while same < len(tail) and tail[same] == tail[0]:
         same += 1
     faulted = [rsp for (n, cmd, rsp) in got["log"][f["p"]:] if isinstance(rsp, str) and "lost" in rsp]
     R.max("t1t_c16_attempts_per_command", min(same, len(faulted)))
     if ans[:f["p"]] != ref_ans[:f["p"]]:
         R.violation("t1t/c16/command-sequence-differs/" + op, "%s: commands before the fault differ" % where, case)
-    if len(got["log"]) > len(ref["log"]) + 3 * f["b"] + 3:
+    bound = 3 * len(ref["log"]) + 3 if persistent else len(ref["log"]) + 3 * f["b"] + 3
+    if len(got["log"]) > bound:
         R.violation("t1t/c16/unbounded-retries/" + op, "%s: %d commands, fault-free %d" % (where, len(got["log"]), len(ref["log"])), case)
+    # order-agnostic "a command that was answered is not sent again": no command is answered more often than the
+    # fault-free run sends it
+    R.count("t1t_c16_failure_paths_checked_for_resend")
+    refc = Counter(cmd for (n, cmd, rsp) in ref["log"])
+    ansc = Counter(ans)
+    again = sorted(c for c in ansc if refc.get(c) and ansc[c] > refc[c])
+    if again:
+        R.violation("t1t/c16/answered-command-sent-again/failure-path/%s/%s" % (op, opname(again[0])),
+                    "%s: command %s was answered %d times, the fault-free run sends it %d time(s)"
+                    % (where, again[0].hex(), ansc[again[0]], refc[again[0]]), case)
     if out[0] == "tce":
         R.count("t1t_c16_failed_as_tagcommanderror")
+        if persistent:
+            R.count("t1t_c16_persistent_burst_failed_as_tagcommanderror")
         if out[1] != errno_of[f["kind"]]:
             R.violation("t1t/c16/errno-mismatch/" + f["kind"],
                         "%s: %s errno %r, expected %r" % (where, out[2], out[1], errno_of[f["kind"]]), case)
         return got
     res = out[1]
+    if op == "has_changed" and res is False:
+        R.violation("t1t/c16/has_changed-false-after-failed-read",
+                    "%s: the read of the NDEF data failed three times and has_changed reports 'not different'" % where, case)
+        return got
     documented = (op == "is_present" and res is False) or (op == "ndef_read" and res is None) or \
-        (op == "has_changed" and isinstance(res, bool)) or (op in ("format", "protect") and res is False) or \
+        (op == "has_changed" and res is True) or (op in ("format", "protect") and res is False) or \
         (op == "dump" and isinstance(res, tuple) and res[0] == "list")
     if documented:
         R.count("t1t_c16_failed_as_documented_result")
+        if persistent:
+            R.count("t1t_c16_persistent_burst_documented_result")
+        if op == "has_changed":
+            R.count("t1t_c16_has_changed_after_persistent_failure_true")
+        if op == "is_present":
+            R.count("t1t_c16_is_present_after_persistent_failure_false")
         R.seen("t1t_c16_documented_results", "%s -> %s" % (op, "list" if op == "dump" else repr(res)))
     else:
         R.violation("t1t/c16/persistent-error-hidden/" + op,
                     "%s: the command failed three times but the operation returned %r" % (where, res), case)
     return got
+
+
+# ---- session class: three operations on one tag object -------------------------------------------
+MEM_FUNCTIONAL = ("read_id", "read_all", "read_byte", "read_block", "read_segment", "write_byte", "is_present")
+
+
+def run_c16_sessions(desc, R, rng, td):
+    product = desc["product"]
+    quick = desc["tier"] == "quick"
+    ops = []
+    for name, args in c16_ops(product, desc["tier"]):
+        if "len" in args:
+            cap = TL.ref_read(td["image"], td["hr0"]).capacity
+            args = dict(args, len=min(args["len"], cap))
+        if name == "dump" and product not in ("topaz", "topaz512"):
+            continue                                     # (the generic dump probes every block with two writes: long)
+        ops.append((name, args))
+    for i in range(40 if quick else 600):
+        first = ops[i % len(ops)]
+        steps = [first, rng.choice(ops), rng.choice(ops)]
+        session = [[name, args, bytes((k * 11 + 3 + j) & 0xFF for k in range(args.get("len", 0)))]
+                   for j, (name, args) in enumerate(steps)]
+        base = dict(td, family=FAM, product=product, session=session)
+        ref = c16_session_run(base, [])
+        n1 = len(ref["steps"][0]["log"])
+        if ref["steps"][0]["outcome"][0] != "ok" or not n1:
+            R.count("t1t_c16_session_setup_skipped")
+            continue
+        b = (1, 2, 3, 99, 2, 3)[i % 6]
+        faults = [[0, rng.randrange(n1), rng.choice(KINDS), b, rng.choice(["cmd_lost", "rsp_lost"])]]
+        if rng.random() < 0.5:
+            j = rng.choice([1, 2])
+            nj = len(ref["steps"][j]["log"])
+            if nj:
+                faults.append([j, rng.randrange(nj), rng.choice(KINDS), rng.choice([1, 2]), rng.choice(["cmd_lost", "rsp_lost"])])
+        c16_session_case(dict(base, faults=faults), R, ref)
+
+
+def c16_session_run(case, faults):
+    """-> {"steps": [{"outcome", "log", "mem_before", "mem"}], "mem"}; faults: [[step, p, kind, b, flavour], ...] with p
+    counted from the first exchange of that step"""
+    model = mk_model(case)
+    clf, dev, tag = activate(model, command_bound=4000)
+    nd = tag.ndef                     # fault-free preparation: the ndef object the application keeps
+    steps = []
+    for idx, (op, args, msg) in enumerate(case["session"]):
+        n0 = dev.n_commands
+        mine = [f for f in faults if int(f[0]) == idx]
+        dev.script = None
+        if mine:
+            f = mine[0]
+            dev.script = _c16_script(n0, {"p": int(f[1]), "kind": str(f[2]), "b": int(f[3]), "flavour": str(f[4])})
+        before = model.snapshot()
+        outcome = _c16_outcome(lambda: _c16_do(tag, nd, str(op), args, msg))
+        dev.script = None
+        steps.append({"outcome": outcome, "log": dev.log[n0:], "mem_before": before, "mem": model.snapshot()})
+    return {"steps": steps, "mem": model.snapshot()}
+
+
+def _c16_fresh_result(case, mem, op, args, msg):
+    """what a fresh tag object returns for `op` on a tag whose memory is `mem`"""
+    model = mk_model(dict(case, image=mem))
+    clf, dev, tag = activate(model, command_bound=3000)
+    return _c16_outcome(lambda: _c16_do(tag, None, op, args, msg))
+
+
+def c16_session_case(case, R, ref=None):
+    import nfc.tag
+    faults = [[int(f[0]), int(f[1]), str(f[2]), int(f[3]), str(f[4])] for f in case["faults"]]
+    session = [(str(op), args, msg) for op, args, msg in case["session"]]
+    if ref is None:
+        ref = c16_session_run(case, [])
+    got = c16_session_run(case, faults)
+    names = "/".join(op for op, _a, _m in session)
+    R.case((case["product"], names, repr(faults), repr([sorted(a.items()) for _o, a, _m in session])))
+    R.count("t1t_c16_session_cases")
+    R.count("t1t_c16_fault_runs")
+    f0 = faults[0]
+    where = "session %s on one %s tag object, %s x%d (%s) at command %d of operation 1%s" % (
+        names, case["product"], f0[2], f0[3], f0[4], f0[1],
+        "".join(", %s x%d at command %d of operation %d" % (f[2], f[3], f[1], f[0] + 1) for f in faults[1:]))
+    if f0[3] >= 99:
+        R.count("t1t_c16_session_persistent_first_op")
+    if len(faults) > 1:
+        R.count("t1t_c16_session_later_burst_within_budget")
+    # clauses for every step, whatever happened before
+    for idx, st in enumerate(got["steps"]):
+        out = st["outcome"]
+        op = session[idx][0]
+        if out[0] == "exc":
+            R.violation("t1t/c16/session/escape/%s/%s" % (op, out[1]), "%s: operation %d raised %s" % (where, idx + 1, out[2]), case)
+            return
+        if out[0] == "bound":
+            R.violation("t1t/c16/session/unbounded-retries/" + op, "%s: operation %d exceeded 4000 commands" % (where, idx + 1), case)
+            return
+    all_within = all(f[3] <= 2 for f in faults)
+    first_failed = got["steps"][0]["outcome"][0] == "tce" or (f0[3] >= 3)
+    if all_within:
+        # every burst is within the retry budget: the session is the fault-free session
+        R.count("t1t_c16_session_first_op_recovered")
+        R.count("t1t_c16_session_whole_session_compared")
+        for idx, (st, rt) in enumerate(zip(got["steps"], ref["steps"])):
+            op = session[idx][0]
+            if st["outcome"][0] == "tce" and st["outcome"] != rt["outcome"]:
+                R.violation("t1t/c16/session/fails-within-budget/" + op,
+                            "%s: operation %d ended with %s errno %r, in the fault-free session with %r"
+                            % (where, idx + 1, st["outcome"][2], st["outcome"][1], str(rt["outcome"])[:60]), case)
+                return
+            if st["outcome"] != rt["outcome"]:
+                R.violation("t1t/c16/session/result-differs/" + op,
+                            "%s: operation %d returned %r, fault-free session %r"
+                            % (where, idx + 1, str(st["outcome"])[:80], str(rt["outcome"])[:80]), case)
+                return
+            if _answered(st["log"]) != _answered(rt["log"]):
+                R.violation("t1t/c16/session/command-sequence-differs/" + op,
+                            "%s: operation %d answered commands %d, fault-free session %d"
+                            % (where, idx + 1, len(_answered(st["log"])), len(_answered(rt["log"]))), case)
+                return
+        if got["mem"] != ref["mem"]:
+            R.violation("t1t/c16/session/memory-differs", "%s: final tag memory differs from the fault-free session" % where, case)
+        return
+    R.count("t1t_c16_session_first_op_failed" if first_failed else "t1t_c16_session_first_op_recovered")
+    o1 = got["steps"][0]["outcome"]
+    R.seen("t1t_c16_session_first_op_outcomes", "%s:%s" % (session[0][0], o1[0] if o1[0] != "ok" else "ok"))
+    # operations behind a failed one: healthy link (or a burst within the budget)
+    for idx in (1, 2):
+        st = got["steps"][idx]
+        op, args, msg = session[idx]
+        out = st["outcome"]
+        R.count("t1t_c16_session_healthy_ops_after_failure_judged")
+        silent = any(rsp is None for (n, cmd, rsp) in st["log"])          # the tag itself did not answer a command
+        if out[0] == "tce" and (out[1] > 0 or silent):
+            # a Type 1 Tag error (write verification, response format) or a command the tag ignores in its present
+            # state (e.g. after protect set the lock bits): the operation reports what the tag did, not a lost exchange
+            R.count("t1t_c16_session_healthy_op_reports_tag_error")
+            continue
+        if out[0] == "tce":
+            R.violation("t1t/c16/session/fails-on-healthy-link/" + op,
+                        "%s: operation %d (%s, no error beyond the retry budget) ended with %s errno %r"
+                        % (where, idx + 1, op, out[2], out[1]), case)
+            return
+        log = st["log"]
+        for i in range(1, len(log)):
+            if isinstance(log[i - 1][2], bytes) and log[i][1] == log[i - 1][1]:
+                R.violation("t1t/c16/session/answered-command-sent-again/" + op,
+                            "%s: operation %d sent the answered command %s again" % (where, idx + 1, log[i][1].hex()), case)
+                return
+        if op in MEM_FUNCTIONAL:
+            want = _c16_fresh_result(case, st["mem_before"], op, args, msg)
+            R.count("t1t_c16_session_memory_functional_results_compared")
+            if out != want:
+                R.violation("t1t/c16/session/result-differs-from-fresh-object/" + op,
+                            "%s: operation %d returned %r, a fresh tag object on the same tag memory %r"
+                            % (where, idx + 1, str(out)[:80], str(want)[:80]), case)
+                return
